@@ -861,6 +861,16 @@ func (c *Conn) ReadBatchWith(cfg ReadBatchConfig) *Batch {
 		err = checkTimeoutErr(adjustedDeadline)
 	}
 
+	var kafkaError Error
+	if errors.As(err, &kafkaError) {
+		// The header readers return as soon as they find an error code, the
+		// rest of the response has to be consumed for the connection to remain
+		// usable, otherwise the next operation would read the left over bytes.
+		if _, discardErr := discardN(&c.rbuf, remain, remain); discardErr != nil {
+			err = dontExpectEOF(discardErr)
+		}
+	}
+
 	var msgs *messageSetReader
 	if err == nil {
 		if highWaterMark == offset {
@@ -1215,7 +1225,7 @@ func (c *Conn) writeCompressedMessages(codec CompressionCodec, msgs ...Message) 
 			}
 		},
 		func(deadline time.Time, size int) error {
-			return expectZeroSize(readArrayWith(&c.rbuf, size, func(r *bufio.Reader, size int) (int, error) {
+			return c.expectZeroSizeOrDiscard(readArrayWith(&c.rbuf, size, func(r *bufio.Reader, size int) (int, error) {
 				// Skip the topic, we've produced the message to only one topic,
 				// no need to waste resources loading it in memory.
 				size, err := discardString(r, size)
@@ -1299,6 +1309,21 @@ func (c *Conn) readResponse(size int, res interface{}) error {
 		if errors.As(err, &kafkaError) {
 			size, err = discardN(&c.rbuf, size, size)
 		}
+	}
+	return expectZeroSize(size, err)
+}
+
+// expectZeroSizeOrDiscard is like expectZeroSize but when err is an error
+// reported by the kafka broker the remaining bytes of the response are
+// discarded, so the connection is left at the beginning of the next response
+// and remains usable.
+func (c *Conn) expectZeroSizeOrDiscard(size int, err error) error {
+	var kafkaError Error
+	if errors.As(err, &kafkaError) {
+		if _, discardErr := discardN(&c.rbuf, size, size); discardErr != nil {
+			return dontExpectEOF(discardErr)
+		}
+		return err
 	}
 	return expectZeroSize(size, err)
 }
